@@ -53,6 +53,12 @@ def check(run):
         from . import C13 as _C13t
         bt = run.borrow("C13", why="rules added one at a time are visited in another order than in a batch build: the redirect chosen among matching rules must not depend on it")
         run.guard("C06.via.C13.6.priority-suffix", cfg, lambda: _C13t.rule_tie_break(bt, F, cfg))
+        from . import C07 as _C07d
+        b74 = run.borrow("C07", why="a load is part of an engine's history: afterwards the active tagged rules are those of the CURRENT tag set, not of the set that was enabled when the data was written")
+        run.guard("C06.via.C07.4.deserialize", cfg, lambda: _C07d.rule_deserialize(b74, F, cfg))
+        from . import C02 as _C02rc
+        brc = run.borrow("C02", only=r"regex-text-case|builders-", why="batch and incremental loading reach the same regexes: every builder of compile_regex is configured alike")
+        run.guard("C06.via.C02.3.regex-translation", cfg, lambda: (_C02rc.rule_regex_case(brc, F, cfg), _C02rc.rule_translation(brc, F, cfg)))
 
 
 def engine_types(F):
